@@ -11,7 +11,8 @@ package ctxcheck
 //         fresh=same|diff:<keys>                 dump(live context) vs dump(NewEpochsContext(spec, state))
 //         reload=none|same|diff:root|diff:<keys> the reload experiment: a second pair made from the SSZ bytes of
 //                                                the live state with a fresh context, fed the same blocks
-//         <abbreviated dump of the live context> compared with Lean's ctxOf(state)
+//         hyps=ok                                (the Lean side evaluates the step theorems' hypotheses here)
+//         <abbreviated dump of the live context> compared with Lean's incremental model AND Lean's ctxOf(state)
 
 import (
 	"bufio"
@@ -247,7 +248,7 @@ func (s *session) report() string {
 			reload = "same"
 		}
 	}
-	return "ok root=" + hx(s.root) + " fresh=" + CompareWithFresh(s.spec, s.liveEpc, s.live.BeaconState) + " reload=" + reload + " " + d.Abbrev()
+	return "ok root=" + hx(s.root) + " fresh=" + CompareWithFresh(s.spec, s.liveEpc, s.live.BeaconState) + " reload=" + reload + " hyps=ok " + d.Abbrev()
 }
 
 // advance runs f on the live pair and, if there is one, on the reloaded pair.
